@@ -90,7 +90,7 @@ func genEngine(c *Ctx) error {
 		}
 		fmt.Fprintf(&sig, "ps=%d,%s", ps, p.journalMode)
 		for i := 0; i < steps; i++ {
-			if len(p.img) > 0 && r.Chance(1, 12) && !c.Flag("nodrop") {
+			if len(p.img) > 0 && (r.Chance(1, 12) || (c.Flag("drop") && r.Chance(1, 4))) && !c.Flag("nodrop") {
 				// delete the database, then create it again under the same name
 				do("drop")
 				p.dropped()
